@@ -97,6 +97,16 @@ def corpus():
         cs.append((f21, v))
     cs.append((["DCompound", [["DInt"], ["DCompound", [["DAdapt", 100, 2, False, ["PNone"]], ["DCast", "CTStr"]]]]], ["PFloat", F(0.5)]))
     cs.append((["DCompound", [["DAdapt", 100, 2, True, ["PNone"]], ["DInt"]]], S("a")))
+    for gm in pv.GROWN_MAPS:                                 # the mapping grows after the trait was defined
+        for v in (S("blue"), S("a"), ["PNone"], ["PInt", 5], S("yes"), S("no"), ["PInt", 1], S("zz")):
+            cs.append((gm, v))
+            cs.append((["DCompound", [gm, ["DFloat"]]], v))
+            cs.append((["DTuple", [gm, ["DInt"]]], ["PTuple", [v, ["PInt", 1]]]))
+    for d_ in (["DComplex"], ["DTuple", [["DComplex"], ["DInt"]]], ["DCompound", [["DStr"], ["DComplex"]]],
+               ["DTuple", [["DCompound", [["DComplex"], ["DEnum", [["PNone"]]]]], ["DFloat"]]]):   # restored CTrait, last table kind
+        for v in (["PNone"], ["PInt", 1], ["PTuple", [["PNone"], ["PInt", 1]]], ["PTuple", [["PInt", 1], ["PInt", 1]]], S("a"),
+                  ["PComplex", F(1.0), F(0.0)]):
+            cs.append((d_, v))
     fwd = ["DCompound", [["DInstance", 100, False, False, "name"], ["DInt"]]]
     for v in (["PObj", 100, 1], ["PObj", 101, 1], ["PObj", 102, 1], ["PInt", 1], ["PNone"], ["PProxy", 100, 1]):
         cs.append((fwd, v))
@@ -131,7 +141,7 @@ def corpus():
 def gen_cases(ctx, rnd):
     quick = ctx.tier == "quick"
     cases = corpus()
-    leaves = pv.fast_leaves(True) + pv.adapts((2,)) + [["DModule"], ["DTuple", []]]
+    leaves = pv.fast_leaves(True) + pv.adapts((2,)) + [["DModule"], ["DTuple", []]] + pv.GROWN_MAPS
     # construction variants (Enum(a, b) / Enum(dflt, [..]) / Enum((..)), Range with one int bound, Instance("Name"))
     leaves = leaves + [w for d in leaves for w in pv.variants(d)]
     # every fast leaf configuration x the whole value lattice
@@ -255,6 +265,14 @@ def run(ctx):
         header = pv.header_with_sub(IMPORTS, envd["sub"])
         obs = single.run(ctx, "c03_driver.py", cases, to_term, header, CASE_T, key_fn, describe, nontrivial, RELATION,
                    check_obs=check_obs, sanitize=(ctx.tier == "thorough"), shard=550)
+    nrest = 0
+    for c, o in zip(cases, obs or []):          # the trait after a getstate/setstate round trip must decide like the original
+        if o.get("cr") is not None and o["cr"] != o["c"] and nrest < 8:
+            nrest += 1
+            ctx.fail("restored-trait-validates-differently/%s/%s" % (pv.shape(c["d"]), pv.vshape(c["v"])),
+                     "trait %s, value %s: CTrait.validate gives %r, the same CTrait after copy.deepcopy "
+                     "(__getstate__/__setstate__) gives %r" % (pv.shape(c["d"]), json.dumps(c["v"])[:120], o["c"], o["cr"]),
+                     dict(kind="law-failure-on-implementation", clause="restored-trait", case=c, impl_obs=o))
     for c, o in zip(cases, obs or []):          # a validator that changes its argument: a failing input of its own
         if o.get("mut") and sum(1 for x in ctx.violations if x[0].startswith("input-mutated")) < 5:
             ctx.fail("input-mutated/%s/%s" % (pv.shape(c["d"]), pv.vshape(c["v"])),
